@@ -30,6 +30,10 @@ func gen(stream, tier string, seed uint64) {
 		genStore(tier, seed)
 	case "order":
 		genOrder(tier, seed)
+	case "numbytes":
+		genNumBytes(tier, seed)
+	case "sortmodes":
+		genSortModes(tier, seed)
 	case "autogen":
 		genAutogen(tier, seed)
 	case "race":
@@ -65,7 +69,7 @@ func gen(stream, tier string, seed uint64) {
 var accAlphabetFull = []string{
 	"{-1", "{0", "{1", "{2", "}", "[-1", "[0", "[1", "]", "0",
 	"s", "s6b", "s6b32", "x", "x01", "b0", "b1", "i-1", "i0", "u0", "u24",
-	"f3ff8000000000000", "f7ff8000000000001", "t0.s6b", "t24.[0", "t5.0",
+	"f3ff8000000000000", "f7ff8000000000001", "f7ff0000000000000", "ffff0000000000000", "t0.s6b", "t24.[0", "t5.0",
 }
 var accAlphabetSmall = []string{
 	"{-1", "{1", "}", "[-1", "[0", "]", "0", "s6b", "x01", "b1", "i-1", "u0", "f3ff8000000000000", "t5.s6b",
@@ -97,7 +101,7 @@ func genAccTree(format string, alpha []string, maxLen int) {
 // randomAccSeq builds a mostly well-formed deep token sequence with occasional faults.
 func randomAccSeq(r *rng, format string, maxDepth int) string {
 	var toks []string
-	scalars := []string{"0", "s", "s6b", "x01", "b0", "b1", "i-1", "i7", "u0", "u300", "f3ff8000000000000", "f7ff0000000000000", "t7.i3", "t0.0"}
+	scalars := []string{"0", "s", "s6b", "x01", "b0", "b1", "i-1", "i7", "u0", "u300", "f3ff8000000000000", "f7ff0000000000000", "ffff0000000000000", "f7ff8000000000001", "t7.i3", "t0.0"}
 	keys := []string{"s6b", "s", "s6b32", "i4", "u9", "t3.s6b"}
 	var value func(depth int)
 	value = func(depth int) {
